@@ -49,6 +49,18 @@ func (r *rng) Intn(n int) int          { return r.p.Intn(n) }
 func (r *rng) Float() float64          { return r.p.Float64() }
 func (r *rng) Chance(p float64) bool   { return r.p.Float64() < p }
 func (r *rng) Pick(xs []int) int       { return xs[r.p.Intn(len(xs))] }
+func (r *rng) permN(n int) []int {
+	p := make([]int, n)
+	for i := range p {
+		p[i] = i
+	}
+	for i := n - 1; i > 0; i-- {
+		j := r.p.Intn(i + 1)
+		p[i], p[j] = p[j], p[i]
+	}
+	return p
+}
+
 func (r *rng) Str(n int) string {
 	const al = "abcdefghijklmnopqrstuvwxyzABCDEFGHIJKLMNOPQRSTUVWXYZ0123456789"
 	b := make([]byte, n)
